@@ -591,6 +591,19 @@ func c16StreamChild(c *Ctx, w *bufio.Writer, startAt int, part int) error {
 			faults = append(faults, fault{dir: "e2g", off: off, kind: "burstff", mask: 0xff, count: cnt})
 		}
 	}
+	// dense sweep of the END of the garbler's stream: the gate records of the last streamed
+	// circuit (op byte, wire numbers, rows) and the return message (result wire numbers): low
+	// bits of every byte — a corrupted wire NUMBER makes the evaluator use / return the label
+	// of a neighbouring wire, which the garbler must not accept as a value of its result wire
+	tailG := c.N(160, 600)
+	for off := lg - tailG; off < lg; off++ {
+		if off < 0 {
+			continue
+		}
+		for _, m := range []byte{0x01, 0x02, 0x04} {
+			faults = append(faults, fault{dir: "g2e", off: off, kind: "flip", mask: m})
+		}
+	}
 	for i := 0; i < no; i++ {
 		for _, v := range []byte{0x00, 0xff} {
 			faults = append(faults, fault{dir: "e2g", off: tail + 16*i, kind: "set16", mask: v})
